@@ -881,6 +881,7 @@ def r7_constant(chk, repo, d):
     ok = len(vdef) == 1 and match("int(self.value)", vdef[0][1]) is not None
     chk.ob("R01.7", E + "Constant.calculate", "both words from one value", ok,
            cal, "value = int(self.value)")
+    store_immediate(chk, repo, d)
     asm = repo.func(E + "EBPF.assemble")
     hits = find("pack('<BBHI', $i.opcode.value, $i.dst | $i.src << 4, "
                 "$i.off % 65536, $i.imm % 4294967296)", asm)
@@ -896,6 +897,77 @@ def r7_constant(chk, repo, d):
     chk.ob("R01.7", E + "EBPF.assemble", "instruction = <BBHI opcode, "
            "dst|src<<4, off mod 2^16, imm mod 2^32", ok, asm,
            "8 bytes little endian per the ISA")
+
+
+def store_immediate(chk, repo, d):
+    """the store-immediate shortcut of Memory._set: the 32-bit immediate
+    of ST is sign-extended for 8-byte stores, so whatever predicate of the
+    constant selects the shortcut must imply the signed 32-bit range
+    (unless the selection also looks at the format)"""
+    from .. import paths
+    sym = E + "Memory._set"
+    f = repo.func(sym)
+    cc = repo.cls(E + "Constant")
+
+    def on(st, p):
+        for c in ast.walk(st) if not isinstance(st, ast.withitem) else \
+                ast.walk(st.context_expr):
+            if isinstance(c, ast.Call) and isinstance(
+                    c.func, ast.Attribute) and c.func.attr == "append" \
+                    and len(c.args) == 5:
+                o = unparse(paths.substitute(c.args[0], p.env))
+                if o.startswith("Opcode.ST +") or o.startswith(
+                        "fmt_to_opcode(self.fmt) + Opcode.ST"):
+                    return ("imm", c)
+    attrs = set()
+    fmt_dependent = False
+    n = 0
+    calls = {}
+    for p in paths.explore(f, on):
+        for e in p.events:
+            if e[0] == "imm":
+                calls[id(e[1])] = e[1]
+                n += 1
+    for c in calls.values():
+        # the innermost test that decides for the immediate form
+        guard = None
+        node = stmt_of(c)
+        for par in parents(node):
+            if isinstance(par, ast.If) and any(
+                    x is node or any(y is node for y in ast.walk(x))
+                    for x in par.body):
+                guard = par.test
+                break
+        need(guard is not None, f"{sym}: the immediate store is not "
+                                f"conditional")
+        for x in ast.walk(guard):
+            if isinstance(x, ast.Attribute) and isinstance(
+                    x.value, ast.Name) and x.value.id == "value":
+                attrs.add(x.attr)
+            if isinstance(x, ast.Attribute) and x.attr == "fmt":
+                fmt_dependent = True
+    chk.floor("R01.7", "paths of Memory._set that store an immediate", n, 1)
+    attrs -= {"fixed", "value"}
+    need(attrs or fmt_dependent, f"{sym}: the predicate selecting the "
+                                 f"immediate store was not found")
+    if fmt_dependent:
+        return
+    fails = []
+    for a in sorted(attrs):
+        for v in (-(1 << 31) - 1, -(1 << 31), -1, 0, (1 << 31) - 1, 1 << 31,
+                  0xdeadbeef, (1 << 32) - 1, 1 << 32):
+            try:
+                sel = bool(d.ev.getattr(Obj(cc, {"value": v}), a))
+            except (Unknown, Raised) as e:
+                raise AnalysisError(f"{sym}: cannot fold Constant.{a}: {e}")
+            if sel and not -(1 << 31) <= v < (1 << 31):
+                fails.append(f"Constant({v:#x}).{a} selects the immediate "
+                             f"store")
+    chk.ob("R01.7", sym, "the immediate store is taken only for constants "
+           "in the signed 32-bit range", not fails, f,
+           "; ".join(fails[:3]) + ": ST DW sign-extends its immediate, the "
+           "upper half of an 8-byte variable becomes ff.." if fails else
+           f"predicate(s) {sorted(attrs)} tabulated over 9 boundary values")
 
 
 # ------------------------------------------------------------------ R01.8
